@@ -231,11 +231,21 @@ func genUniverse(r *rand.Rand, p profile, mutOK bool) Universe {
 		if len(es) > 6 {
 			es = es[:6]
 		}
-		a, b := Entry("Bar", invNS, "bar-x"), EntryOtherBar(invNS, "bar-x")
+		a, b := EntryBaz(false, invNS, "baz-x"), EntryBaz(true, invNS, "baz-x")
 		if chance(r, 0.5) {
 			[]*UEntry{&a, &b}[r.Intn(2)].Fin = true
 		}
 		es = append(es, a, b)
+	}
+	if !hasEntry(es, "CustomResourceDefinition", "", crdMeta.Name) {
+		// the model takes a custom resource without a CRD entry for a built-in kind: keep the pair together
+		n := es[:0]
+		for _, e := range es {
+			if e.Meta.GroupKind != barGK {
+				n = append(n, e)
+			}
+		}
+		es = n
 	}
 	if len(es) < 2 {
 		es = append(es, Entry("ConfigMap", invNS, "cm-a"), Entry("ConfigMap", invNS, "cm-b"))
@@ -259,6 +269,9 @@ func genCluster(r *rand.Rand, p profile, u Universe) Cluster {
 	for i, e := range u {
 		if e.FInv || !chance(r, pLive) {
 			continue
+		}
+		if e.Crd >= 0 && c.Find(e.Crd) == nil {
+			continue // no custom resource without its CRD object (the CRD has the smaller id)
 		}
 		o := CObj{ID: i, UID: uid, Ver: 1 + r.Intn(2)}
 		applied := chance(r, 0.65)
@@ -966,6 +979,13 @@ func orderDependent(u Universe, cur Cluster, sc Scenario) bool {
 // behind (the inventory namespace was invalid or failed to apply); no further
 // run is started from it.
 func wellFormed(u Universe, c Cluster) bool {
+	// a custom resource exists only while its CRD object does (a real server removes the
+	// resources with the definition; the fake does not)
+	for _, o := range c.Objs {
+		if d := u[o.ID].Crd; d >= 0 && c.Find(d) == nil {
+			return false
+		}
+	}
 	n := u.InvNs()
 	return !c.HasInv || n < 0 || c.Find(n) != nil
 }
@@ -1455,7 +1475,7 @@ func (c *collector) corpus() {
 	// 18. two identifiers that differ in the API group only (x1 = Bar company.com, x2 = Bar other.example.com,
 	// same namespace and name), a third object depending on one of them; held by a finalizer, request rejected
 	for _, fin := range []bool{false, true} {
-		x1, x2 := Entry("Bar", invNS, "bar-x"), EntryOtherBar(invNS, "bar-x")
+		x1, x2 := EntryBaz(false, invNS, "baz-x"), EntryBaz(true, invNS, "baz-x")
 		x2.Fin = fin
 		ux := NewUniverse([]UEntry{Entry("ConfigMap", invNS, "cm-a"), x1, x2}) // 0 = cm-a, 1 = x1, 2 = x2
 		live3 := func(dep int) Cluster {
@@ -1507,6 +1527,72 @@ func (c *collector) corpus() {
 			ls = append(ls, LObj{ID: i, FInv: e.FInv, Ver: 1})
 		}
 		c.fixedHistory(ui, Cluster{NextUID: 100}, []fixedRun{{local: ls, opts: Opts{Prune: true, Policy: PMustMatch, ValPol: vp}}})
+	}
+	// 20. type knowledge: the mapper knows the custom kind only while its CRD object exists (as of its last
+	// reset: start of the run, end of a wait over a CRD that was not skipped)
+	{
+		ud := NewUniverse([]UEntry{Entry("CustomResourceDefinition", "", crdMeta.Name), Entry("ConfigMap", invNS, "cm-a"), Entry("Bar", invNS, "bar-a")})
+		crd, cm, bar := ud.Index(crdMeta), ud.Index(Entry("ConfigMap", invNS, "cm-a").Meta), ud.Index(Entry("Bar", invNS, "bar-a").Meta)
+		all := []LObj{{ID: crd, Ver: 1}, {ID: cm, Ver: 1}, {ID: bar, Ver: 1}}
+		only := func(ids ...int) []LObj {
+			var l []LObj
+			for _, i := range ids {
+				l = append(l, LObj{ID: i, Ver: 1})
+			}
+			return l
+		}
+		empty := Cluster{NextUID: 100}
+		live := func(ids ...int) Cluster {
+			cl := Cluster{NextUID: 100, HasInv: true}
+			for k, i := range ids {
+				cl.Objs = append(cl.Objs, CObj{ID: i, UID: uint64(k + 1), Owner: OOurs, Ver: 1}.Applied())
+				cl.Inv = append(cl.Inv, i)
+			}
+			sort.Slice(cl.Objs, func(a, b int) bool { return cl.Objs[a].ID < cl.Objs[b].ID })
+			sort.Ints(cl.Inv)
+			return cl
+		}
+		pl := Opts{Prune: true, Policy: PMustMatch}
+		timed := Opts{Prune: true, Policy: PMustMatch, RecTimeout: true, PruneTimeout: true}
+		des := Opts{Destroy: true, Prune: true, Policy: PMustMatch}
+		failed := func(id int) map[int][]SObs {
+			return map[int][]SObs{id: {{ID: id, St: SFailed, Body: true, UID: 100, Gen: objGen}}}
+		}
+		// all fine: apply, apply again, the custom resource without the CRD manifest, destroy
+		c.fixedHistory(ud, empty, []fixedRun{{local: all, opts: pl}, {local: all, opts: pl}, {local: only(cm, bar), opts: pl}, {opts: des}})
+		c.fixedHistory(ud, empty, []fixedRun{{local: all, opts: Opts{Prune: true, Policy: PAdoptAll, SSA: true, StatusEvents: true}}, {opts: des}})
+		// the CRD's apply is rejected; then applied again
+		for k := range faultErrs {
+			if faultErrs[k] != 409 {
+				c.fixedHistory(ud, empty, []fixedRun{{local: all, opts: pl, faults: []FAddr{{Kind: "FApply", I: crd, Err: k}}}, {local: all, opts: pl}})
+			}
+			c.fixedHistory(ud, empty, []fixedRun{{local: all, opts: pl, faults: []FAddr{{Kind: "FGet", I: crd, N: k % 2, Err: k}}}})
+		}
+		c.fixedHistory(ud, empty, []fixedRun{{local: all, opts: Opts{Prune: true, Policy: PAdoptAll, SSA: true}, faults: []FAddr{{Kind: "FApply", I: crd}}}})
+		// the CRD's reconcile fails / times out / the run is cancelled while waiting for it
+		c.fixedHistory(ud, empty, []fixedRun{{local: all, opts: pl, replace: failed(crd)}, {local: all, opts: pl}})
+		c.fixedHistory(ud, empty, []fixedRun{{local: all, opts: timed, stall: []int{crd}}, {local: all, opts: timed}})
+		c.fixedHistory(ud, empty, []fixedRun{{local: all, opts: pl, stall: []int{crd}}})
+		// the CRD is there already
+		c.fixedHistory(ud, live(crd), []fixedRun{{local: only(bar, cm), opts: pl}, {opts: des}})
+		c.fixedHistory(ud, live(crd), []fixedRun{{local: only(crd, bar), opts: pl, faults: []FAddr{{Kind: "FApply", I: bar}}}})
+		// the CRD is pruned in the run that applies / prunes its custom resource
+		c.fixedHistory(ud, live(crd, bar, cm), []fixedRun{{local: only(bar, cm), opts: timed}, {local: only(cm), opts: timed}})
+		c.fixedHistory(ud, live(crd, bar, cm), []fixedRun{{local: only(cm), opts: timed}, {local: all, opts: pl}})
+		c.fixedHistory(ud, live(crd, bar, cm), []fixedRun{{local: only(crd, cm), opts: timed}, {local: only(cm), opts: timed}})
+		// destroy over CRD + custom resource
+		c.fixedHistory(ud, live(crd, bar, cm), []fixedRun{{opts: des}, {opts: des}})
+		c.fixedHistory(ud, live(crd, bar, cm), []fixedRun{{opts: des, faults: []FAddr{{Kind: "FDelete", I: bar, Err: 1}}}, {opts: des}})
+		c.fixedHistory(ud, live(crd, bar, cm), []fixedRun{{opts: Opts{Destroy: true, Prune: true, Policy: PMustMatch, PruneTimeout: true}, stall: []int{bar}}})
+		// dry-run: the CRD and its custom resource both new (no wait resets the mapper), and over an existing CRD
+		for _, d := range []Dry{DClient, DServer} {
+			c.fixedHistory(ud, empty, []fixedRun{{local: all, opts: Opts{Prune: true, Policy: PMustMatch, Dry: d}}, {local: all, opts: pl}})
+			c.fixedHistory(ud, live(crd), []fixedRun{{local: all, opts: Opts{Prune: true, Policy: PMustMatch, Dry: d}}})
+			c.fixedHistory(ud, live(crd, bar, cm), []fixedRun{{opts: Opts{Destroy: true, Prune: true, Policy: PMustMatch, Dry: d}}})
+		}
+		// a custom resource without its CRD anywhere: unknown type
+		c.fixedHistory(ud, empty, []fixedRun{{local: only(cm, bar), opts: Opts{Prune: true, Policy: PMustMatch, ValPol: VSkipInvalid}}})
+		c.fixedHistory(ud, empty, []fixedRun{{local: only(cm, bar), opts: pl}})
 	}
 	// a plain round trip: apply two, apply one (prune), destroy
 	c.fixedHistory(u, Cluster{NextUID: 100}, []fixedRun{
@@ -1689,7 +1775,7 @@ func (c *collector) variants(r *rand.Rand, p profile, st *Store, h History, sc S
 // distribution and implementation failures into the summary of another check
 // (the way c11plan.AddCases extends the C11 summary).
 func AddCases(sum *emit.Summary, prop string, seed int64, tier, outDir string) error {
-	sub, err := RunFor(prop)(seed, tier, outDir)
+	sub, err := Supervised(prop)(seed, tier, outDir)
 	if err != nil {
 		return err
 	}
